@@ -35,6 +35,9 @@ enum {
   OP_EXPAND,         /* a = live index, b = 0: to usable, 1: usable+1 */
   OP_FREE_SIZE,      /* a = live index : mi_free_size / mi_free_aligned variants by parity */
   OP_FREE_EVERY,     /* a = stride k, b = phase: free every k-th live block (hole patterns) */
+  OP_AHEAP_NEW,      /* heap slot 1 := mi_heap_new_in_arena(the managed arena) */
+  OP_THREAD_ARENA,   /* helper thread: creates an arena-bound heap, allocates a = size twice (kept live), exits */
+  OP_THREAD_MANY,    /* helper thread: default heap, allocates b blocks of a bytes, keeps the first and last live, exits */
   OP_DFREE,          /* a = index into the list of released blocks: free it a second time (hardened builds) */
   OP_OVER,           /* a = live index: write one foreign byte just past the requested size, then free the block */
   OP_LINK,           /* a = index into the list of released blocks: overwrite its free-list link with a forged value */
@@ -67,6 +70,9 @@ static void vf_op_str(vf_op_t op, char* buf, size_t n) {
     case OP_EXPAND:       snprintf(buf, n, "expand(#%ld,usable+%ld)", op.a, op.b); break;
     case OP_FREE_SIZE:    snprintf(buf, n, "free_size(#%ld)", op.a); break;
     case OP_FREE_EVERY:   snprintf(buf, n, "free_every(%ld,%ld)", op.a, op.b); break;
+    case OP_AHEAP_NEW:    snprintf(buf, n, "heap_new_in_arena"); break;
+    case OP_THREAD_ARENA: snprintf(buf, n, "thread_arena_alloc(%ld)", op.a); break;
+    case OP_THREAD_MANY:  snprintf(buf, n, "thread_alloc(%ld x%ld)", op.a, op.b); break;
     case OP_DFREE:        snprintf(buf, n, "double_free(released#%ld)", op.a); break;
     case OP_OVER:         snprintf(buf, n, "overflow_then_free(#%ld)", op.a); break;
     case OP_LINK:         snprintf(buf, n, "forge_link(released#%ld,%ld)", op.a, op.b); break;
@@ -84,6 +90,7 @@ static int        g_check_errors = 1;  /* secondary oracle: unexpected mi error 
 static int        g_threads_used = 0;
 #define NREL 6
 static struct { uint8_t* p; size_t req, usable; int linked; int valid; mi_page_t* page; } g_rel[NREL]; static int g_nrel;   /* recently released blocks (fault targets) */
+static mi_arena_id_t g_arena = 0; static uintptr_t g_arena_lo, g_arena_hi, g_map_lo, g_map_hi, g_given_lo, g_given_hi; static int g_arena_excl; static int g_heap_in_arena[NHEAPS];
 static int        g_pending_links = 0;      /* forged links not yet reached by the allocator */
 static int        g_faulted = 0;            /* debug builds: stop the branch after the first reported fault */
 static int        g_pending[NHEAPS + 1];    /* heap slot has (possibly) pending cross-thread frees: C12 claims nothing about extra reports then */
@@ -102,6 +109,7 @@ typedef struct profile_s {
   long hsizes[3];  int nh;
   long ticks[2];   int nt;
   long callocs[3][2]; int nc;
+  int  arena;                          /* C15: managed-arena operations */
   int  faults;                         /* hardened builds: double free / overflow / forged link operations */
   int  fillcount, free_every;          /* blocks per fill (default 8); enable free_every(k,phase) ops */
   int  maxlive;                        /* allocation ops disabled above this many live blocks */
@@ -137,6 +145,8 @@ static const profile_t profiles[] = {
   { .name = "P6x", .msizes = { 1024 }, .nm = 1, .fills = { 1024, 512 }, .nf = 2, .fillcount = 64, .free_every = 1, .walk = 1, .collect0 = 1, .maxlive = 200, .free_window = 2 },
   /* P7t: threads: remote free + abandoned segments + reclaim */
   { .name = "P7t", .msizes = { 8 * KiB, 100 * KiB }, .nm = 2, .remote_free = 1, .thread_alloc = 1, .collect0 = 1, .collect1 = 1, .maxlive = 6, .free_window = 4 },
+  /* P6a: arena-bound heaps and exclusive arenas (C15); start states Sa<shape> hand a guarded region to mi_manage_os_memory_ex */
+  { .name = "P6a", .msizes = { 8 * KiB, 1 * MiB, 17 * MiB }, .nm = 3, .hsizes = { 8 * KiB, 1 * MiB, 17 * MiB }, .nh = 3, .arena = 1, .collect1 = 1, .maxlive = 8, .free_window = 4 },
   /* P9s: hardened builds (C17): a full page of 8 blocks, frees, and the three fault operations at every position */
   { .name = "P9s", .msizes = { 8000, 100 }, .nm = 2, .fills = { 8000 }, .nf = 1, .faults = 1, .maxlive = 12, .free_window = 4 },
   /* P8o: option sweep profile (C13): merged alphabet incl. clock ticks */
@@ -150,7 +160,14 @@ typedef struct targ_s { int kind; void* p; size_t size; void* out[2]; } targ_t;
 static void* helper_thread(void* a) {
   targ_t* t = (targ_t*)a;
   if (t->kind == 0) { mi_free(t->p); }
-  else { t->out[0] = mi_malloc(t->size); t->out[1] = mi_malloc(t->size); }
+  else if (t->kind == 1) { t->out[0] = mi_malloc(t->size); t->out[1] = mi_malloc(t->size); }
+  else if (t->kind == 2) { mi_heap_t* h = mi_heap_new_in_arena(g_arena); t->out[0] = (h ? mi_heap_malloc(h, t->size) : NULL); t->out[1] = (h ? mi_heap_malloc(h, t->size) : NULL); t->p = h; }
+  else { /* kind 3: many blocks from the default heap; first and last stay live */
+    void* tmp[64]; int n = (int)(uintptr_t)t->p; if (n > 64) n = 64;
+    for (int i = 0; i < n; i++) tmp[i] = mi_malloc(t->size);
+    t->out[0] = tmp[0]; t->out[1] = tmp[n - 1];
+    for (int i = 1; i < n - 1; i++) mi_free(tmp[i]);
+  }
   return NULL;
 }
 static void run_helper(targ_t* t) {
@@ -311,10 +328,38 @@ static void purge_monitor(int kind, int arg, uintptr_t addr, size_t len) {
   }
 }
 
+/* ---------------- C15 oracle -------------------------------------------------------------------------------- */
+static int arena_free_blocks(void) {
+  mi_arena_t* a = mi_arena_from_index(mi_arena_id_index(g_arena)); int n = 0;
+  for (size_t b = 0; b < a->block_count; b++) if (!((mi_atomic_load_relaxed(&a->blocks_inuse[b / MI_BITMAP_FIELD_BITS]) >> (b % MI_BITMAP_FIELD_BITS)) & 1)) n++;
+  return n;
+}
+static int check_arena_node(void) {
+  if (!g_arena) return 0;
+  VF_INC(checks);
+  for (int i = 0; i < vf_nlive; i++) {
+    const vf_blk_t* b = &vf_live[i];
+    int inside = ((uintptr_t)b->p >= g_arena_lo && (uintptr_t)b->p + b->usable <= g_arena_hi);
+    int partly = ((uintptr_t)b->p < g_arena_hi && (uintptr_t)b->p + b->usable > g_arena_lo);
+    int bound = (b->heap == -2) || (b->heap > 0 && g_heap_in_arena[b->heap]);
+    if (bound && !inside) { vf_violation("arena-heap-outside", "block #%d %p (req %zu) of a heap bound to the arena lies outside the arena [%p,%p)", i, b->p, b->req, (void*)g_arena_lo, (void*)g_arena_hi); return -1; }
+    if (!bound && g_arena_excl && partly) { vf_violation("exclusive-arena-leak", "block #%d %p (req %zu) of a heap that is NOT bound to the exclusive arena lies inside it [%p,%p)", i, b->p, b->req, (void*)g_arena_lo, (void*)g_arena_hi); return -1; }
+    if (partly) VF_INC(counters[8]);
+  }
+  /* memory handed to mi_manage_os_memory_ex is only used within the bounds given: canaries around it, no OS call outside */
+  for (uintptr_t a = g_map_lo; a < g_map_hi; a += 4096) {
+    if (a >= g_given_lo && a < g_given_hi) { a = g_given_hi - 4096; continue; }    /* the range that was handed over */
+    if (*(volatile uint64_t*)a != (0xC0FFEE0000000000ULL ^ a)) { vf_violation("outside-given-bounds", "memory at %p outside the range given to mi_manage_os_memory_ex [%p,%p) was written", (void*)a, (void*)g_given_lo, (void*)g_given_hi); return -1; }
+  }
+  if (vf_os.untracked_touch > 0) { vf_violation("outside-given-bounds", "%ld OS calls touched memory outside the managed range (first at %p)", vf_os.untracked_touch, (void*)vf_os.untracked_addr); return -1; }
+  return 0;
+}
+
 /* ---------------- node oracle ------------------------------------------------------------------ */
 static int vf_check_node(void) {
   if (vf_model_check_all("node") != 0) return -1;
   if (g_prof->faults) rel_revalidate();
+  if (check_arena_node() != 0) return -1;
   if (g_pending_links > 0 && vf_err_count > 0 && vf_err_last == EFAULT) {
     /* the allocator reached a forged link and reported it instead of following it */
     VF_INC(counters[7]); g_pending_links -= 1; vf_err_count = 0;
@@ -378,6 +423,29 @@ static int vf_apply(vf_op_t op) {
       }
       else if (b.align && (i & 1)) mi_free_aligned(b.p, b.align);
       else mi_free(b.p);
+      return 0;
+    }
+    case OP_AHEAP_NEW: {
+      if (g_heaps[1] != NULL || !g_arena) return 0;
+      g_heaps[1] = mi_heap_new_in_arena(g_arena);
+      if (g_heaps[1] == NULL) { vf_violation("null-result", "mi_heap_new_in_arena returned NULL"); return 1; }
+      g_heap_in_arena[1] = 1;
+      return 0;
+    }
+    case OP_THREAD_ARENA: {
+      targ_t t = { 2, NULL, (size_t)op.a, { 0, 0 } };
+      run_helper(&t);
+      if (t.p == NULL) { vf_violation("null-result", "mi_heap_new_in_arena returned NULL in the helper thread"); return 1; }
+      for (int k = 0; k < 2; k++) {
+        if (t.out[k] == NULL) { if (arena_free_blocks() < 1) { vf_err_count = 0; VF_INC(counters[9]); continue; } vf_violation("null-result", "arena-bound heap returned NULL although the arena has %d free blocks", arena_free_blocks()); return 1; }
+        if (vf_model_alloc(t.out[k], (size_t)op.a, 0, 0, -2, 0, "mi_heap_malloc[arena heap, thread]") < 0) return 1;
+      }
+      return 0;
+    }
+    case OP_THREAD_MANY: {
+      targ_t t = { 3, (void*)(uintptr_t)op.b, (size_t)op.a, { 0, 0 } };
+      run_helper(&t);
+      for (int k = 0; k < 2; k++) if (vf_model_alloc(t.out[k], (size_t)op.a, 0, 0, -1, 0, "mi_malloc[thread]") < 0) return 1;
       return 0;
     }
     case OP_DFREE: {
@@ -506,12 +574,20 @@ static int vf_apply(vf_op_t op) {
     case OP_HMALLOC: {
       int h = (int)op.a; if (g_heaps[h] == NULL) return 0;
       void* p = mi_heap_malloc(g_heaps[h], (size_t)op.b);
+      if (p == NULL && g_heap_in_arena[h]) {
+        /* an arena-bound heap returns NULL when its arena cannot serve the request (it never falls back to the OS) */
+        int need = (int)(((size_t)op.b + MI_SEGMENT_SIZE - 1) / MI_SEGMENT_SIZE) + ((size_t)op.b > MI_LARGE_OBJ_SIZE_MAX ? 0 : 0);
+        VF_INC(counters[9]); vf_err_count = 0;
+        if (arena_free_blocks() >= need + 1) { vf_violation("arena-heap-null", "arena-bound heap returned NULL for %ld bytes although the arena still has %d free blocks", op.b, arena_free_blocks()); return 1; }
+        return 0;
+      }
       return vf_model_alloc(p, (size_t)op.b, 0, 0, h, 0, "mi_heap_malloc") < 0;
     }
     case OP_HEAP_DELETE: {
       int h = (int)op.a; if (h <= 0 || g_heaps[h] == NULL) return 0;
       mi_heap_delete(g_heaps[h]);
       g_heaps[h] = NULL; g_pending[0] |= g_pending[h]; g_pending[h] = 0;
+      if (g_heap_in_arena[h]) { g_heap_in_arena[h] = 0; for (int i = 0; i < vf_nlive; i++) if (vf_live[i].heap == 0 && 0) {} }
       for (int i = 0; i < vf_nlive; i++) if (vf_live[i].heap == h) vf_live[i].heap = 0;   /* migrated to the backing heap */
       if (g_default == h) g_default = 0;
       VF_INC(counters[2]);
@@ -582,6 +658,11 @@ static int vf_list_ops(vf_op_t* out, int max) {
       for (int r = 0; r < P->nrz; r++) if ((size_t)P->rzsizes[r] > b->req) { PUSH(OP_REZALLOC, idx[k], P->rzsizes[r]); if (P->recalloc) PUSH(OP_RECALLOC, idx[k], P->rzsizes[r]); break; }
       for (int r = P->nrz - 1; r >= 0; r--) if ((size_t)P->rzsizes[r] > b->req) { if (r > 0 && (size_t)P->rzsizes[r - 1] > b->req) PUSH(OP_REZALLOC, idx[k], P->rzsizes[r]); break; }
     }
+  }
+  if (P->arena) {
+    if (g_heaps[1] == NULL) PUSH(OP_AHEAP_NEW, 0, 0);
+    else if (can_alloc) for (int i = 0; i < P->nh; i++) PUSH(OP_HMALLOC, 1, P->hsizes[i]);
+    if (can_alloc) { PUSH(OP_THREAD_ARENA, 8 * KiB, 0); PUSH(OP_THREAD_MANY, 8 * KiB, 12); }
   }
   if (P->faults) {
     if (g_faulted) return 0;      /* debug builds: internal assertions after a detected error are outside the claim: the branch ends here */
@@ -665,6 +746,34 @@ static int build_start(const char* s) {
     mi_memid_t memid;
     void* blk = _mi_arena_alloc((size_t)62 * MI_ARENA_BLOCK_SIZE, false, false, aid, &memid);
     if (blk == NULL) { fprintf(stderr, "cannot pre-claim arena blocks\n"); return 2; }
+    return 0;
+  }
+  if (s[0] == 'S' && s[1] == 'a') {
+    /* Sa<shape>: shape = delta index (0..3) * 16 + size index (0..3) * 4 + exclusive * 2 + committed */
+    int shape = atoi(s + 2);
+    static const size_t deltas[4] = { 0, 4096, 1 * MiB, 32 * MiB - 4096 };
+    static const size_t sizes[4] = { 64 * MiB, 95 * MiB, 96 * MiB, 100 * MiB };
+    size_t delta = deltas[(shape >> 4) & 3], size = sizes[(shape >> 2) & 3]; int excl = (shape >> 1) & 1, committed = shape & 1;
+    size_t maplen = size + delta + 64 * MiB + 2 * 4096;
+    uint8_t* raw = (uint8_t*)vf_real_mmap(NULL, maplen, PROT_NONE, MAP_PRIVATE | MAP_ANONYMOUS | MAP_NORESERVE, -1, 0);
+    if (raw == MAP_FAILED) { perror("mmap region"); return 2; }
+    uint8_t* base = (uint8_t*)(((uintptr_t)raw + 4096 + MI_SEGMENT_SIZE - 1) & ~(uintptr_t)(MI_SEGMENT_SIZE - 1));   /* 32 MiB aligned */
+    uint8_t* given = base + delta;
+    /* guard pages (PROT_NONE) right before `base` and after the given range + one canary page; in between: canaries, then the given range */
+    uint8_t* rw_lo = base; uint8_t* rw_hi = given + size + 4096;
+    mprotect(rw_lo, (size_t)(rw_hi - rw_lo), committed ? (PROT_READ | PROT_WRITE) : PROT_NONE);
+    if (delta > 0) mprotect(base, delta, PROT_READ | PROT_WRITE);
+    mprotect(given + size, 4096, PROT_READ | PROT_WRITE);
+    for (uintptr_t a = (uintptr_t)base; a < (uintptr_t)given; a += 4096) *(volatile uint64_t*)a = 0xC0FFEE0000000000ULL ^ a;
+    *(volatile uint64_t*)(given + size) = 0xC0FFEE0000000000ULL ^ (uintptr_t)(given + size);
+    g_map_lo = (uintptr_t)base; g_map_hi = (uintptr_t)given + size + 4096; g_given_lo = (uintptr_t)given; g_given_hi = (uintptr_t)given + size;
+    vf_os_adopt(given, size, committed ? VF_P_RW : VF_P_NONE);
+    if (!mi_manage_os_memory_ex(given, size, committed, false, true, -1, excl, &g_arena)) { fprintf(stderr, "mi_manage_os_memory_ex refused the region\n"); return 2; }
+    size_t asz = 0; void* astart = mi_arena_area(g_arena, &asz);
+    g_arena_lo = (uintptr_t)astart; g_arena_hi = g_arena_lo + asz; g_arena_excl = excl;
+    if (g_arena_lo < (uintptr_t)given || g_arena_hi > (uintptr_t)given + size) { vf_violation("outside-given-bounds", "the arena [%p,+%zu) is not inside the given range [%p,+%zu)", astart, asz, given, size); return 1; }
+    /* from here on the shim reports every OS call on memory it does not know (outside the adopted range and mimalloc's own mappings) */
+    vf_os.untracked_touch = 0; vf_os.untracked_addr = 0;
     return 0;
   }
   fprintf(stderr, "unknown start state %s\n", s);
